@@ -11,9 +11,7 @@ mod c05;
 mod c06;
 mod c07;
 mod c08;
-mod c09;
 mod c10;
-mod c11;
 mod c12;
 mod c13;
 mod c14;
@@ -40,9 +38,7 @@ fn table(id: &str) -> Option<(GenFn, ExecFn)> {
         "C06" => Some((c06::gen, c06::exec)),
         "C07" => Some((c07::gen, c07::exec)),
         "C08" => Some((c08::gen, c08::exec)),
-        "C09" => Some((c09::gen, c09::exec)),
         "C10" => Some((c10::gen, c10::exec)),
-        "C11" => Some((c11::gen, c11::exec)),
         "C12" => Some((c12::gen, c12::exec)),
         "C13" => Some((c13::gen, c13::exec)),
         "C14" => Some((c14::gen, c14::exec)),
